@@ -7,6 +7,7 @@ import (
 	"encoding/json"
 	"fmt"
 	"math"
+	"sort"
 	"strings"
 	"time"
 
@@ -699,11 +700,46 @@ func init() {
 				m2.Include(m.Clone().ReadOnly().WriteableClone())
 				return m2.ReadOnly().GetNode("k")
 			})
+			// the caller's Args stays the caller's: building tokens from it (with further arguments) neither changes it nor
+			// lets one token see what was added for another, or what the caller adds later
+			n9, e9 := safe(func() (ipld.Node, error) {
+				a := args.New()
+				if err := a.Add("k", p.val); err != nil {
+					return nil, err
+				}
+				keysOf := func(r args.ReadOnly) string {
+					var ks []string
+					for k := range r.Iter() {
+						ks = append(ks, k)
+					}
+					sort.Strings(ks)
+					return strings.Join(ks, ",")
+				}
+				t1, err := invocation.New(didOrPanic(), didOrPanic(), command.Top(), nil, invocation.WithArguments(a), invocation.WithArgument("extra1", 1))
+				if err != nil {
+					return nil, err
+				}
+				t2, err := invocation.New(didOrPanic(), didOrPanic(), command.Top(), nil, invocation.WithArguments(a), invocation.WithArgument("extra2", 2))
+				if err != nil {
+					return nil, err
+				}
+				_ = a.Add("later", 3)
+				if got := keysOf(t1.Arguments()); got != "extra1,k" {
+					return nil, fmt.Errorf("panic: shared Args: the first token holds the arguments [%s]", got)
+				}
+				if got := keysOf(t2.Arguments()); got != "extra2,k" {
+					return nil, fmt.Errorf("panic: shared Args: the second token holds the arguments [%s]", got)
+				}
+				if got := keysOf(a.ReadOnly()); got != "k,later" {
+					return nil, fmt.Errorf("panic: shared Args: the caller's Args holds [%s]", got)
+				}
+				return t2.Arguments().GetNode("k")
+			})
 			for _, r := range []struct {
 				api string
 				n   ipld.Node
 				e   error
-			}{{"args.Add", n1, e1}, {"meta.Add", n2, e2}, {"literal.Any", n3, e3}, {"invocation.WithArgument", n4, e4},
+			}{{"WithArguments(shared Args)", n9, e9}, {"args.Add", n1, e1}, {"meta.Add", n2, e2}, {"literal.Any", n3, e3}, {"invocation.WithArgument", n4, e4},
 				{"args.Builder.Build", n5, e5}, {"args.Builder.BuildIPLD", n6, e6}, {"Args.Clone/Include/WithArguments", n7, e7}, {"Meta.Clone/Include", n8, e8}} {
 				pn := false
 				if r.e != nil && strings.HasPrefix(r.e.Error(), "panic") {
